@@ -462,7 +462,7 @@ def alarm_task(task, ctx: Ctx):
 
 # ---------------------------------------------------------------------- part 3: watches and idle callbacks removed before run()
 def run_prerun(loopname, rm_watch, rm_idle):
-    """three watches (all readable from the start) and two idle callbacks registered before run(); the subsets rm_watch / rm_idle are removed
+    """three watches (descriptors 0, 8, 9: all readable from the start) and two idle callbacks registered before run(); the subsets rm_watch / rm_idle are removed
     again before run(); -> (calls, removal results, result)"""
     logging.disable(logging.CRITICAL)
     w = World(())
@@ -486,7 +486,7 @@ def run_prerun(loopname, rm_watch, rm_idle):
     def end(*_a):
         raise ExitMainLoop
 
-    for fd in (7, 8, 9):
+    for fd in (0, 8, 9):
         H[("w", fd)] = evl.watch_file(mkfd(fd), mk_watch(fd))
         w.readable.add(fd)
     for n in (1, 2):
@@ -529,7 +529,7 @@ def judge_prerun(loopname, rm_watch, rm_idle, calls, rm, res):
     for what, r in rm:
         if r is not True:
             out.append(("remove-result", f"prerun/{'watch' if what[0] == 'w' else 'idle'}", f"removing {what} before run() returned {r!r}, expected True"))
-    for fd in (7, 8, 9):
+    for fd in (0, 8, 9):
         n = calls.count(("w", fd))
         if fd in rm_watch and n:
             out.append(("watch-removed-silent", "prerun", f"watch on {fd} was removed before run() but its callback ran {n}x"))
@@ -548,7 +548,7 @@ def prerun_task(task, ctx: Ctx):
     (loopname,) = task
     env.reset("utf-8")
     for k in range(4):
-        for rm_watch in itertools.combinations((7, 8, 9), k):
+        for rm_watch in itertools.combinations((0, 8, 9), k):
             for j in range(3):
                 for rm_idle in itertools.combinations((1, 2), j):
                     ctx.count("evaluations")
